@@ -225,24 +225,6 @@ def oracle_fresh(case, obs):
 
 
 # ------------------------------------------------------------------ what the commands ask of the generators
-class _RP(SD._RandProxy):
-    def default_rng(self, *a, **k):
-        self.log.append(("default_rng", a, k, None))
-        return self._real.default_rng(*a, **k)
-
-    def normal(self, *a, **k):
-        self.log.append(("normal", a, k, None))
-        return self._real.normal(*a, **k)
-
-    def random(self, *a, **k):
-        self.log.append(("random", a, k, None))
-        return self._real.random(*a, **k)
-
-    def permutation(self, *a, **k):
-        self.log.append(("permutation", a, k, None))
-        return self._real.permutation(*a, **k)
-
-
 def gen_requests(rng, tier):
     n = 6 if tier == "quick" else 60
     for t in range(n):
@@ -271,10 +253,7 @@ def impl_requests(case):
     py_before = pyrandom.getstate()
     for k in (0, 1):
         np.random.random(case["burn"] + 17 * k)  # two different histories
-        rp = _RP(np.random)
-        orig = sg.np
-        sg.np = SD._NPProxy(rp)
-        try:
+        with SD.record_random() as rp:
             if case["via"] == "cli":
                 r = CliRunner().invoke(main, ["simgenotype", "--model", str(d / "model.dat"), "--mapdir", str(d / "maps"), "--chroms", "1,2", "--seed", str(case["seed"]), "--ref_vcf", str(d / "ref.vcf.gz"), "--sample_info", str(d / "info.tab"), "--out", str(d / "q.vcf")], catch_exceptions=True)
                 if r.exit_code != 0:
@@ -283,8 +262,8 @@ def impl_requests(case):
                 n, pd, bps = sg.simulate_gt(str(d / "model.dat"), str(d / "maps"), ["1", "2"], None, 30, SD.silent_log(), case["seed"])
                 bps = sg.write_breakpoints(n, pd, bps, str(d / "q"), SD.silent_log())
                 sg.output_vcf(bps, ["1", "2"], str(d / "model.dat"), str(d / "ref.vcf.gz"), str(d / "info.tab"), None, False, False, False, str(d / "q.vcf"), SD.silent_log())
-        finally:
-            sg.np = orig
+        if not rp.log:
+            raise C.GlueBroken("no request of simgenotype to numpy's process-wide generator could be observed (it reaches the generator by a route the recorder does not see)")
         runs.append(rp.log)
     log = runs[0]
     seeded_first = [bool(l) and l[0][0] == "seed" and bool(l[0][1]) and l[0][1][0] is not None for l in runs]
@@ -292,18 +271,13 @@ def impl_requests(case):
     obs = {"simgenotype_first": first, "seed_args": [sorted({repr(e[1]) for e in l if e[0] == "seed"}) for l in runs], "draws": sum(1 for e in log if e[0] != "seed"), "other_generators": [e[0] for l in runs for e in l if e[0] == "default_rng"], "python_random_untouched": pyrandom.getstate() == py_before}
     # simphenotype
     g_before = _state_digest()
-    rp2 = _RP(np.random)
-    orig = sp.np
-    sp.np = SD._NPProxy(rp2)
-    try:
+    with SD.record_random() as rp2:
         if case["via"] == "cli":
             r = CliRunner().invoke(main, ["simphenotype", "--seed", str(case["seed"]), "-r", "2", "-o", str(d / "q.pheno"), str(d / "gts.vcf"), str(d / "eff.snplist")], catch_exceptions=True)
             if r.exit_code != 0:
                 return {"error": "cli_exit", "msg": (str(r.exception) or r.output)[-200:]}
         else:
             sp.simulate_pt(d / "gts.vcf", d / "eff.snplist", num_replications=2, heritability=0.5, seed=case["seed"], output=d / "q.pheno", log=SD.silent_log())
-    finally:
-        sp.np = orig
     obs["simphenotype_global_requests"] = sum(1 for e in rp2.log if e[0] != "default_rng")
     obs["simphenotype_private_seeds"] = [repr(e[1]) for e in rp2.log if e[0] == "default_rng"]
     obs["global_state_unchanged_by_simphenotype"] = _state_digest() == g_before
@@ -334,8 +308,8 @@ def oracle_requests(case, obs):
         return "simgenotype drew nothing from np.random although it simulated recombination (randomness taken from elsewhere?)"
     if obs["other_generators"] or not obs["python_random_untouched"]:
         return f"simgenotype with seed {s} uses a generator the seed does not reach ({obs['other_generators']}, python random untouched: {obs['python_random_untouched']})"
-    if len(obs["simphenotype_private_seeds"]) != 1 or "None" in obs["simphenotype_private_seeds"][0] or obs["simphenotype_private_seeds"][0] == "()":
-        return f"simphenotype with seed {s}: private generators created with {obs['simphenotype_private_seeds']}"
+    if any("None" in x or x == "()" for x in obs["simphenotype_private_seeds"]):
+        return f"simphenotype with seed {s}: a private generator was created without a seed ({obs['simphenotype_private_seeds']})"
     if obs["simphenotype_global_requests"] != 0 or not obs["global_state_unchanged_by_simphenotype"]:
         return f"simphenotype with seed {s} uses the process-wide generator ({obs['simphenotype_global_requests']} requests; state unchanged: {obs['global_state_unchanged_by_simphenotype']})"
     return None
@@ -383,7 +357,7 @@ CHECK = Check(
             teardown=teardown,
             nontrivial=lambda c, o: C.jdump(c),
             describe=lambda c, o: [f"seed={c['seed']}", c["via"]],
-            rule="the hypothesis of the adaptive theorem, observed: `haptools.sim_genotype` and `haptools.sim_phenotype` are handed a recording proxy of np.random while the seeded command runs (API and click runner, seeds 0, 1, 7, 2^32-1, 12345, arbitrary prior use of the global generator): simgenotype's first request must be a seeding (with the same argument after two different histories), everything else it draws comes from np.random, no other generator is created and Python's `random` is untouched; simphenotype creates one private generator from a seed, asks nothing of the process-wide generator and leaves its state as it was",
+            rule="the hypothesis of the adaptive theorem, observed: the functions of the numpy.random module are wrapped on the module itself while the seeded command runs (API and click runner, seeds 0, 1, 7, 2^32-1, 12345, arbitrary prior use of the global generator): simgenotype's first request must be a seeding (with the same argument after two different histories), everything else it draws comes from np.random, no other generator is created and Python's `random` is untouched; simphenotype creates no generator without a seed, asks nothing of the process-wide generator and leaves its state as it was",
         ),
     ],
     trusted=["numpy's generators are deterministic functions of their seed", "pysam reading of the compared VCFs"],
